@@ -2,7 +2,7 @@
 (* Model-checking wrapper of RE.tla: the plan is a PROGRAM (straight-line messages with one optional        *)
 (* try/cleanup region), device outcomes come from a bounded fault budget, requests from a bounded budget, *)
 (* and the caller takes every possible decision after a pause.                                            *)
-EXTENDS RE
+EXTENDS REProps
 
 CONSTANTS
   Prog,        \* [msgs, t0, t1, c0, c1, kind, raiseAt]  (positions 1-based; cleanup block directly follows the try block)
@@ -13,10 +13,11 @@ CONSTANTS
   Decisions,   \* subset of {"resume","abort","stop","halt"}  what the caller may do when a call leaves the engine paused
   MaxCalls,    \* number of RE(...) calls
   SuspPre, SuspPost,   \* pre/post plans of suspensions (sequences of messages)
-  MaxUpdates   \* number of monitor updates
+  MaxUpdates,  \* number of monitor updates
+  RecordIntr   \* RE.record_interruptions
 
 VARIABLES env      \* [nreq, nfault, ncall, nupd, susp (futures with a suspension requested)]
-mcvars == <<S, obs, env>>
+mcvars == <<S, obs, env, mon>>
 
 N == Len(Prog.msgs)
 NoP == [at |-> 0, pend |-> None]
@@ -48,7 +49,7 @@ ProgReact(g, inp) ==
 DevCmds == {"read", "set", "trigger", "stage", "unstage"}
 StatusCmds == {"set", "trigger"}
 
-MCInit == Init /\ env = [nreq |-> 0, nfault |-> 0, ncall |-> 0, nupd |-> 0, susp |-> {}]
+MCInit == Init /\ MonInit /\ env = [nreq |-> 0, nfault |-> 0, ncall |-> 0, nupd |-> 0, susp |-> {}]
 
 Bump(f) == env' = [env EXCEPT ![f] = @ + 1]
 
@@ -62,7 +63,7 @@ MCNext ==
         \/ /\ env.nfault < MaxFaults /\ S.cur.cmd \in DevCmds
            /\ \E d \in FaultKinds : (d \in {"fail", "later"} => S.cur.cmd \in StatusCmds) /\ Exec(d)
            /\ Bump("nfault")
-  \/ (Start \/ Top \/ Wake \/ AfterSleep0 \/ DeliverCancel \/ CmdDone \/ Exit \/ TailStep \/ Finally) /\ UNCHANGED env
+  \/ (Start \/ Top \/ Wake \/ AfterSleep0 \/ (\E b \in BOOLEAN : DeliverCancel(b)) \/ CmdDone \/ Exit \/ TailStep \/ Finally) /\ UNCHANGED env
   \/ /\ env.nreq < MaxReq
      /\ \/ "pause" \in ReqKinds /\ ReqPause(FALSE) /\ Bump("nreq")
         \/ "defer" \in ReqKinds /\ ReqPause(TRUE) /\ Bump("nreq")
@@ -73,12 +74,14 @@ MCNext ==
   \/ \E f \in env.susp : Release(f) /\ UNCHANGED env
   \/ \E sid \in DOMAIN S.stDone : \E ok \in BOOLEAN : (ok \/ "fail" \in FaultKinds) /\ StatusDone(sid, ok) /\ UNCHANGED env
   \/ /\ env.nupd < MaxUpdates /\ \E d \in Mons : MonitorUpdate(d) /\ Bump("nupd")
-  \/ env.ncall < MaxCalls /\ Call(NoP) /\ Bump("ncall")
+  \/ env.ncall < MaxCalls /\ Call(NoP, RecordIntr) /\ Bump("ncall")
   \/ Return /\ UNCHANGED env
   \/ "resume" \in Decisions /\ CallResume /\ UNCHANGED env
   \/ \E op \in Decisions \cap {"abort", "stop", "halt"} : CallTerminate(op) /\ UNCHANGED env
 
-MCSpec == MCInit /\ [][MCNext]_mcvars
+MCStep == MCNext /\ MonNext
+MCSpec == MCInit /\ [][MCStep]_mcvars
+MCReport == Report(0)
 
 \* no reachable state without a successor, except the quiescent ones (everything returned, budgets used up or idle)
 Quiescent == S.caller.phase = "idle" /\ S.pc \in {"none", "done", "paused"}
